@@ -469,3 +469,60 @@ pub fn make_inline(kind: InlineKind, a: &[V], b: &[V], ap: &[(K, V)], bp: &[(K, 
 pub fn drain_vec<T>(rx: &mut Receiver<Vec<T>>) -> Vec<Vec<T>> {
     drain(rx)
 }
+
+// ---------------------------------------------------------------- recording wrapper around a real hook
+
+/// one call `run_hooks` (or the harness) made on a hook: `a<i>:<force>:<returned flag>` / `r<i>`
+#[derive(Clone, Copy, Debug, PartialEq, Eq)]
+pub enum Ev {
+    Auto(usize, bool, bool),
+    Rel(usize),
+}
+pub type EvLog = Rc<RefCell<Vec<Ev>>>;
+
+pub fn fmt_evs(evs: &[Ev]) -> String {
+    if evs.is_empty() {
+        return "-".into();
+    }
+    evs.iter()
+        .map(|e| match e {
+            Ev::Auto(i, f, nt) => format!("a{i}:{}:{}", *f as u8, *nt as u8),
+            Ev::Rel(i) => format!("r{i}"),
+        })
+        .collect::<Vec<_>>()
+        .join(",")
+}
+
+/// The real hook behind a `SimHook` that forwards every call and records, for the calls that take a
+/// decision, which hook was called with which `force_nontrivial` and what it answered.  This is what
+/// the *real* `run_hooks` gets in its slice, so the forcing flag of each of its calls is observable.
+pub struct Spy {
+    pub i: usize,
+    pub inner: Box<dyn SimHook>,
+    pub ev: EvLog,
+}
+
+impl SimHook for Spy {
+    fn current_decision(&self) -> Option<bool> {
+        self.inner.current_decision()
+    }
+    fn can_make_nontrivial_decision(&self) -> bool {
+        self.inner.can_make_nontrivial_decision()
+    }
+    fn autonomous_decision<'a>(
+        &mut self,
+        driver: &mut bolero::generator::bolero_generator::driver::object::Borrowed<'a>,
+        force_nontrivial: bool,
+    ) -> bool {
+        let nt = self.inner.autonomous_decision(driver, force_nontrivial);
+        self.ev.borrow_mut().push(Ev::Auto(self.i, force_nontrivial, nt));
+        nt
+    }
+    fn release_decision(&mut self, log_writer: Option<&mut dyn std::fmt::Write>) {
+        self.ev.borrow_mut().push(Ev::Rel(self.i));
+        self.inner.release_decision(log_writer)
+    }
+    fn is_ready(&self) -> bool {
+        self.inner.is_ready()
+    }
+}
